@@ -170,6 +170,37 @@ func TestVerifC01(t *testing.T) {
 				c2.AddContent(d.cat, d.name, d.variant, d.data)
 				syn = append(syn, d)
 			}
+			// documents that are word for word the same text under different names (a company's copy of
+			// a standard license under its own copyright line; a text added twice): a planted copy is a
+			// copy of each of them, and each is reported
+			mit := vnamed("License/MIT/a.txt")[0]
+			twinA := vdoc{"License", "Twin-Alpha", "license.txt", []byte("alpha bravo charlie delta echo foxtrot golf hotel\nindia juliet kilo lima mike november oscar papa\nquebec romeo sierra tango uniform victor whiskey xray\n")}
+			twinB := vdoc{"License", "Twin-Beta", "license.txt", twinA.data}
+			zyx := vdoc{"License", "Zyxcorp-License", "license.txt", append([]byte("Copyright 2021 Zyxcorp Inc.\n"), mit.data...)}
+			for _, d := range []vdoc{twinA, twinB, zyx} {
+				c2.AddContent(d.cat, d.name, d.variant, d.data)
+			}
+			for ti2, pair := range [][2]vdoc{{twinA, twinB}, {twinB, twinA}, {mit, zyx}} {
+				in := vplantInput(r.fork(uint64(9100+ti2)), fmt.Sprintf("twin%d", ti2), []vdoc{pair[0]})
+				if len(in.plants) == 1 {
+					// the same bytes are a copy of the other document too
+					in.plants = append(in.plants, vplant{pair[1], in.plants[0].start, in.plants[0].end})
+					if pair[1].name == "Zyxcorp-License" {
+						in.plants = in.plants[:1] // its own text has a copyright line in front: only MIT's words are planted …
+						in.plants = append(in.plants, vplant{vdoc{"License", "Zyxcorp-License", "license.txt", mit.data}, in.plants[0].start, in.plants[0].end})
+					}
+				}
+				var res Results
+				pan, msg := catch(func() { res = c2.Match(in.data) })
+				if pan {
+					o.verdict("C01", in.id, false, true, in.id, map[string]interface{}{"what": "panic " + msg, "threshold": th})
+					continue
+				}
+				w, k := voracleC01(c2, in, res)
+				nchecked += k
+				o.verdict("C01", in.id, w == "", k > 1, in.id, map[string]interface{}{"what": w, "threshold": th, "input_hex": vclip(hx(in.data))})
+				n++
+			}
 			c = c2
 		}
 		docs := vpick(r.fork(uint64(ti)), nDocs)
@@ -303,6 +334,15 @@ func TestVerifC04(t *testing.T) {
 	}
 	c3 := vclassifier(0.8)
 	c3.AddContent("License", "Unrelated-Zzz", "license.txt", []byte(voovBlock(r.fork(77), 30)))
+	// … and a corpus with additional documents that have no words at all (empty, blank lines,
+	// punctuation, a lone copyright line): they can relate to no input
+	c5 := vclassifier(0.8)
+	for i, t := range []string{"", "\n\n", "--- *** ---\n", "Copyright 2019 Example Corp.\n"} {
+		c5.AddContent("License", fmt.Sprintf("Wordless-%d", i), "license.txt", []byte(t))
+	}
+	for i, t := range []string{"some prose that is not a license at all\nwith a second line\n", "Copyright 2020 Somebody\nprose without any license words in it\nthird line\n", "zyxqv blorfen\n"} {
+		inputs = append(inputs, vinput{id: fmt.Sprintf("nomatch%d", i), data: []byte(t)})
+	}
 	c4 := vclassifier(0.8)
 	c4.SetTraceConfiguration(&TraceConfiguration{TraceLicenses: "*", TracePhases: "*", Tracer: func(string, ...interface{}) {}})
 	n := 0
@@ -342,6 +382,11 @@ func TestVerifC04(t *testing.T) {
 		if what == "" {
 			if r2 := c3.Match(in.data); !vresEqual(base, r2) {
 				what = "corpus with one extra unrelated document differs: " + vshowResults(base) + " vs " + vshowResults(r2)
+			}
+		}
+		if what == "" {
+			if r2 := c5.Match(in.data); !vresEqual(base, r2) {
+				what = "corpus with extra wordless documents differs: " + vshowResults(base) + " vs " + vshowResults(r2)
 			}
 		}
 		if what == "" {
@@ -1810,6 +1855,10 @@ func TestVerifC10(t *testing.T) {
 	// (Normalize keeps it) or as an entity (Match / AddContent decode it after lower-casing)
 	for i, s := range []string{"Https:", "Https:/", "&#72;ttps:", "&#x48;ttps:/", "see Https: and &#72;ttps:/ x", "Http:", "&#72;ttps://", "Https://"} {
 		inputs = append(inputs, vinput{id: fmt.Sprintf("noticescheme%d", i), data: []byte(s)})
+	}
+	// directed: a lone punctuation mark written as an entity, as the first word of a line, of the text, and in running text
+	for i, s := range []string{"&#46; Permission is hereby granted", "&colon;", "x\n&rpar; y\n", "&#58;\n&#41;\n&#46;\n", "a &#46; b &period; c", "&#x2e;\n", "&#45;\n&#45; x", "&lpar;&rpar; &amp; &lpar;"} {
+		inputs = append(inputs, vinput{id: fmt.Sprintf("noticepunct%d", i), data: []byte(s)})
 	}
 	// directed: out-of-vocabulary words only (every id 0), alone and after a notice line
 	for i, s := range []string{"foo bar baz", "zzz", "some words\nnobody has ever put\ninto the dictionary", "Copyright 2020 somebody\nqqq www eee rrr", "qq ww ee rr tt yy uu ii oo pp aa ss dd ff gg hh jj kk ll"} {
